@@ -2,6 +2,30 @@
 HOOK_COMMITS = []
 NOT_APPLICABLE = {}
 CLAIMS = {
+    "C14": dict(
+        text="spec/Lifecycle.tla models one action per public call (parameter/density/damping setters, Translate/Rotate/Symmetry, coordinate setter, mesh "
+        "replacement, BC clearing/adding incl. Lagrange conditions, scheme switch, Get_K_C_M_F, Solve, Save_Iter, Set_Iter, ...) with the implementation's own "
+        "bookkeeping (needUpdate flag, element caches, sparsity-map memo, observer lists). TLC checks NoStale / MapsCurrent / Observing exhaustively on bounded "
+        "configurations (1 and 2 simulations sharing model and mesh) and rejects five deliberately defective variants. TLC simulation-mode behaviours are replayed "
+        "on real Elastic, Thermal and harness simulations: after every action the abstraction of the concrete state (flag, iteration count, current mesh, store) is "
+        "compared with the specification state, and at every observing action K, C, M, F, the solution and named results are compared with a fresh simulation "
+        "built independently in the final configuration.",
+        note="Trusted: TLC; the adapters' mapping of abstract actions to API calls; the fresh-build oracle (new mesh object from the harness's own shadow coordinates). "
+        "Random-walk sampling of behaviours (seeded), not a transition cover; PhaseField/HyperElastic/InElastic/Beam/WeakForms adapters are listed in DESIGN.md as growth items.",
+        technique="TLA+ life-cycle specification, TLC exhaustive + negative variants; TLC behaviours replayed into real simulations with per-step abstraction comparison",
+        design_ref="DESIGN.md 6/C14",
+    ),
+    "C15": dict(
+        text="Store part of spec/Lifecycle.tla: TLC checks the action properties AppendOnly, PureRead, Restores, Pinned exhaustively on bounded configurations and rejects "
+        "defective variants (memo kept across a mesh-switching restore; iteration saved with the wrong mesh index). Store-centred TLC behaviours (Solve, Save_Iter, folder "
+        "changes, Set_Iter, Get_results, mesh replacement, scheme switch, Save/Load_Simu round trip) are replayed on real simulations; after every action every stored "
+        "iteration is re-read and compared with the snapshot taken by the harness when it was saved, restored fields and mesh are compared with the snapshot, reads must "
+        "leave the state fingerprint unchanged.",
+        note="Trusted: TLC, the harness's snapshots. Velocities/accelerations are required from a stored iteration only when saved and restored under a dynamic scheme. "
+        "After a restore that switches mesh the environment re-enters boundary conditions (modelled explicitly in SetIter).",
+        technique="TLA+ iteration-store specification (action properties), TLC exhaustive; TLC behaviours replayed into real simulations against shadow snapshots",
+        design_ref="DESIGN.md 6/C15",
+    ),
     "C05": dict(
         text="TLC model-checks spec/TimeSchemes.tla (the eight algorithms written from their documented definitions over exact rationals; "
         "invariants: discrete equation of motion on free dofs, documented update relations, exact energy conservation for average-acceleration "
